@@ -81,13 +81,14 @@ def run(n, seed):
             cfg_now = json.loads(bytes.fromhex(h.call({"op": "rawget", "key": item_key("config")})["ok"]))
             li, lw = [], []
             if path == "v100" or r.random() < 0.2:
-                ks = sorted(r.sample(range(1, 60), r.randrange(0, 8)))
+                # sizes on both sides of the page sizes the contract uses elsewhere (10) and of a large backlog
+                ks = sorted(r.sample(range(1, 90), r.choice([0, 1, 2, 3, 5, 7, 9, 10, 11, 12, 21, 22, 23, 34, 60])))
                 for k in ks:
                     p = {"sequence": k if r.random() < 0.9 else k + 100, "amount": str(r.choice([1, 700, 10 ** 18, 2 ** 128 - 1])),
                          "status": r.choice(STATUSES)}
                     li.append([k, p])
                     h.call({"op": "rawset", "key": map_key("inflight", k), "value": jhex(p)})
-                for k in sorted(r.sample(range(1, 10 ** 6), r.randrange(0, 3))):
+                for k in sorted(r.sample(range(1, 10 ** 6), r.choice([0, 0, 1, 2, 2, 10, 11, 12, 25]))):
                     w = {"amount": str(r.choice([5, 10 ** 9]))}
                     lw.append([k, w])
                     h.call({"op": "rawset", "key": map_key("ibc_waiting_for_reply", k), "value": jhex(w)})
